@@ -816,3 +816,32 @@ package orda
 //@   mode math
 //@   requires[valid-range] its != nil && its.listSnapshot != nil && pos >= 0 && numOfNodes >= 1 && pos < its.listSnapshot.size && numOfNodes <= its.listSnapshot.size - pos
 //@   modifies alloc
+
+// ---------------------------------------------------------------------------------------
+// Document operations on json values: OUTSIDE the contracts. The List and Map contracts above are stated for
+// *timedNode values (`dispatch timedType : *timedNode`); json nodes implement timedType with another tombstone record
+// (jsonPrimitive.C / .D) and their own node tables. A bounded stand-in runs the real code instead: every history of
+// at most 3 (quick) / 4 (thorough) steps over 2 replicas from a fixed start state, see /verif/bounded/doctree_test.go.
+// It is reported as BOUNDED in the evidence and never counted as proved.
+// ---------------------------------------------------------------------------------------
+//@ func (*jsonArray).insertCommon
+//@   bounded doctree json values are outside the List contracts (stated for *timedNode values)
+//@   props C01 C02 C03 C04
+//@ func (*jsonArray).deleteLocal
+//@   bounded doctree json values are outside the List contracts (stated for *timedNode values)
+//@   props C01 C03 C04
+//@ func (*jsonArray).deleteRemote
+//@   bounded doctree json values are outside the List contracts (stated for *timedNode values)
+//@   props C01 C02 C04
+//@ func (*jsonArray).updateLocal
+//@   bounded doctree json values are outside the List contracts (stated for *timedNode values)
+//@   props C01 C02 C03 C04
+//@ func (*jsonArray).updateRemote
+//@   bounded doctree json values are outside the List contracts (stated for *timedNode values)
+//@   props C01 C02 C04
+//@ func (*jsonObject).putCommon
+//@   bounded doctree json values are outside the Map contracts (stated for *timedNode values)
+//@   props C01 C02 C03
+//@ func (*jsonObject).deleteCommonInObject
+//@   bounded doctree json values are outside the Map contracts (stated for *timedNode values)
+//@   props C01 C02 C03
